@@ -5,6 +5,7 @@ import (
 	"go/ast"
 	"go/token"
 	"go/types"
+	"os"
 	"sort"
 	"strings"
 
@@ -190,7 +191,7 @@ func CheckC17(c *Ctx) {
 	run := c.Run
 	c.resolveContainerFields()
 	run.Technique = "typed-AST lints with finite decision tables: ordering decisions in generic numeric code must use comparison operators (never the sign of a difference); Insert and search must route every ordering {<,=,>} consistently; every Ring index is reduced modulo the buffer length"
-	run.Explanation = "Conformance of Ring and Bst to the FIFO / multiset models under arbitrary histories is NOT decided. Three structural necessary conditions are: (1) no ordering decision on generic numeric values is taken from the sign of a difference (for integer element types the subtraction overflows: Bst[int8] holding -100 cannot find 100); (2) evaluated on the three orderings of (searched value, node value), Insert and searchNode send smaller keys to the same side, larger keys to the same side and searchNode stops on equality; (3) every index into Ring.buffer is begin/end or reduced modulo len(buffer), and begin/end advance only through nextIndex, whose body is (i+1) % len(buffer). Ring state invariant: `empty => begin == end` is established by NewRing and preserved on every path of every Ring method (each method's guarded commands, receiver fields as state); Put writes at end and Get/At read from begin, so an empty ring with different indices returns slots that were never filled. (4) Tree link discipline: the functions of package helper that store into tree links are interpreted path by path over symbolic node names (a variable holds an access path such as n.right, b.root or the results of a verified (node, parent) search loop; unexported non-recursive callees are inlined with their arguments; a loop is entered once from an arbitrary state of the variables it assigns; conditions become propositional facts over equalities of access paths). Every store into a child link, the root or the value of an existing node is an attach (new node into a link that is nil in every truth assignment the facts of the path allow), a splice (the link pointed at N, receives a child of N, and N's other child is nil: only N leaves the tree) or a replace (value of the in-order neighbour found by a verified search below N, which is itself spliced out on the same path); a recursive splicing function is analysed under the precondition that the root or one of the parent's links points at the node, which every call has to establish. The verdict does not depend on how the code is cut into helpers, on recursion versus re-assignment of (node, parent), or on pointer-to-link variables."
+	run.Explanation = "Conformance of Ring and Bst to the FIFO / multiset models under arbitrary histories is NOT decided. Three structural necessary conditions are: (1) no ordering decision on generic numeric values is taken from the sign of a difference (for integer element types the subtraction overflows: Bst[int8] holding -100 cannot find 100); (2) evaluated on the three orderings of (searched value, node value), Insert and searchNode send smaller keys to the same side, larger keys to the same side and searchNode stops on equality; (3) every index into Ring.buffer is begin/end or reduced modulo len(buffer), and begin/end advance only through nextIndex, whose body is (i+1) % len(buffer). Ring state invariant: `empty => begin == end` is established by NewRing and preserved on every path of every Ring method (each method's guarded commands, receiver fields as state); Put writes at end and Get/At read from begin, so an empty ring with different indices returns slots that were never filled. (4) Tree link discipline: the functions of package helper that store into tree links are interpreted path by path over symbolic node names (a variable holds an access path such as n.right, b.root or the results of a verified (node, parent) search loop; unexported non-recursive callees are inlined with their arguments; a loop is entered once from an arbitrary state of the variables it assigns; conditions become propositional facts over equalities of access paths). Every store into a child link, the root or the value of an existing node is an attach (new node into a link that is nil in every truth assignment the facts of the path allow), a splice (the link pointed at N, receives a child of N, and N's other child is nil: only N leaves the tree) or a replace (value of the in-order neighbour found by a verified search below N, which is itself spliced out on the same path); a recursive splicing function is analysed under the precondition that the root or one of the parent's links points at the node, which every call has to establish. The verdict does not depend on how the code is cut into helpers, on recursion versus re-assignment of (node, parent), or on pointer-to-link variables. (5) The observers: Contains, Remove, Min and Max are compared, as SSA path summaries over role names (the verified search, the unlinking method, the extreme finders, the root and value fields), with what the multiset model requires; a search loop runs exactly while there is somewhere to go."
 	run.Trusted = []string{"go/types", "finite ordering domain {<,=,>} (values are only compared)"}
 	hp := c.P.Pkg("helper")
 	if hp == nil {
@@ -278,6 +279,7 @@ func CheckC17(c *Ctx) {
 	c.ringDiscipline(info)
 	c.ringInvariant()
 	c.treeAnswers()
+	c.ringSteps()
 	// (4) link-write discipline of the tree (removal)
 	c.bstLinks()
 }
@@ -624,6 +626,14 @@ func (c *Ctx) ringInvariant() {
 		}
 		methods++
 		site := "helper.(*Ring)." + fi.Fn.Name()
+		if os.Getenv("VERIF_DEBUG_DTAB") != "" {
+			for i, p := range m.Paths {
+				fmt.Fprintf(os.Stderr, "%s path %d conds=%v ret=%v effects=%v exit=%s\n", site, i, exprs(p.Conds), exprs(p.Ret), p.Effects, p.Exit)
+				for k, v := range p.Updates {
+					fmt.Fprintf(os.Stderr, "    %s := %s\n", k, sym.CanonString(v))
+				}
+			}
+		}
 		if len(m.Unsupported) > 0 {
 			c.violate("ring-invariant", site, "shape", fi.Decl.Pos(), "the method is not loop-free, the ring invariant is undecided (fails closed): "+strings.Join(m.Unsupported, "; "))
 			continue
@@ -1036,4 +1046,309 @@ func (c *Ctx) treeAnswers() {
 	}
 	run.Count("tree_observers", n)
 	run.Floor("tree_observers", 4)
+}
+
+func exprs(es []sym.Expr) []string {
+	var out []string
+	for _, e := range es {
+		out = append(out, sym.CanonString(e))
+	}
+	return out
+}
+
+// ringSteps: Put and Get, as guarded commands over (begin, end, empty), are compared with the
+// bounded-FIFO model on every state of a ring of three slots that satisfies the invariant
+// (empty => begin == end): Put stores its argument at end, returns what was there, advances end,
+// clears empty and, when the ring was full, advances begin; Get on an empty ring changes nothing
+// and answers (zero, false), otherwise it returns the slot at begin, advances begin and sets
+// empty exactly when begin has caught up with end.
+func (c *Ctx) ringSteps() {
+	run := c.Run
+	hp := c.P.Pkg("helper")
+	if hp == nil {
+		return
+	}
+	info := hp.TypesInfo
+	dtab.InlineExported = func(fn *types.Func) bool {
+		d := c.P.Decls[fn]
+		return d != nil && d.Decl.Recv != nil && recvTypeName(d) == "Ring" && d.Pkg.PkgPath == hp.PkgPath
+	}
+	defer func() { dtab.InlineExported = nil }()
+	const L = 3
+	states := 0
+	for _, name := range []string{"Put", "Get"} {
+		fi := c.P.Method("helper", "Ring", name)
+		if fi == nil || fi.Decl.Body == nil {
+			run.Break("anchor missing: helper.(*Ring)." + name)
+			continue
+		}
+		site := "helper.(*Ring)." + name
+		m := dtab.FromFuncDecl(info, fi.Decl)
+		recv := ""
+		if len(fi.Decl.Recv.List) == 1 && len(fi.Decl.Recv.List[0].Names) == 1 {
+			recv = fi.Decl.Recv.List[0].Names[0].Name
+		}
+		bN, eN, mN, bufN := recv+"."+ringF.begin, recv+"."+ringF.end, recv+"."+ringF.empty, recv+"."+ringF.buf
+		why := ""
+		if len(m.Unsupported) > 0 || recv == "" {
+			why = "the method is not loop-free (undecided, fails closed)"
+		}
+		// a store into the buffer is a store at end: its index is end itself (possibly through a
+		// local) and it stands before end is advanced
+		storeAtEnd := false
+		{
+			var endAssign token.Pos
+			ast.Inspect(fi.Decl.Body, func(n ast.Node) bool {
+				if as, ok := n.(*ast.AssignStmt); ok {
+					for _, l := range as.Lhs {
+						if sel, isSel := l.(*ast.SelectorExpr); isSel && sel.Sel.Name == ringF.end && endAssign == token.NoPos {
+							endAssign = as.Pos()
+						}
+					}
+				}
+				return true
+			})
+			ast.Inspect(fi.Decl.Body, func(n ast.Node) bool {
+				as, ok := n.(*ast.AssignStmt)
+				if !ok || len(as.Lhs) != 1 {
+					return true
+				}
+				ix, isIx := as.Lhs[0].(*ast.IndexExpr)
+				if !isIx {
+					return true
+				}
+				if sel, isSel := ix.X.(*ast.SelectorExpr); !isSel || sel.Sel.Name != ringF.buf {
+					return true
+				}
+				idx := ast.Unparen(resolveLocals(info, fi.Decl.Body, ix.Index))
+				if sel, isSel := idx.(*ast.SelectorExpr); isSel && sel.Sel.Name == ringF.end && (endAssign == token.NoPos || as.Pos() < endAssign) {
+					storeAtEnd = true
+				}
+				return true
+			})
+		}
+		for b := int64(0); b < L && why == ""; b++ {
+			for e := int64(0); e < L && why == ""; e++ {
+				for _, empty := range []bool{true, false} {
+					if empty && b != e {
+						continue
+					}
+					env := map[string]sym.Expr{bN: sym.N(b), eN: sym.N(e), mN: sym.V("#false"), "len(" + bufN + ")": sym.N(L)}
+					if empty {
+						env[mN] = sym.V("#true")
+					}
+					var taken *dtab.Path
+					n := 0
+					for _, p := range m.Paths {
+						all := true
+						for _, cd := range p.Conds {
+							v, ok := evalRingBool(cd, env)
+							if !ok {
+								why = "a condition of " + name + " is outside the ring's state: " + sym.CanonString(cd)
+							}
+							if !v {
+								all = false
+							}
+						}
+						if all {
+							taken = p
+							n++
+						}
+					}
+					if why != "" {
+						break
+					}
+					if n != 1 {
+						why = fmt.Sprintf("%d paths of %s apply in the state begin=%d end=%d empty=%v", n, name, b, e, empty)
+						break
+					}
+					states++
+					post := func(nm string, dflt int64) (int64, bool) {
+						u, has := taken.Updates[nm]
+						if !has {
+							return dflt, true
+						}
+						return evalIntTermEnv(u, env)
+					}
+					postEmpty := empty
+					if u, has := taken.Updates[mN]; has {
+						v, ok := evalRingBool(u, env)
+						if !ok {
+							why = "the new value of empty is undecided in " + name
+							break
+						}
+						postEmpty = v
+					}
+					b2, ok1 := post(bN, b)
+					e2, ok2 := post(eN, e)
+					if !ok1 || !ok2 {
+						why = "the new indices are undecided in " + name
+						break
+					}
+					stores := false
+					for _, ef := range taken.Effects {
+						if strings.HasPrefix(ef, "assign "+bufN+"[") {
+							stores = storeAtEnd
+						}
+					}
+					var wb, we int64
+					var wEmpty, wStores bool
+					wantRet := ""
+					switch name {
+					case "Put":
+						full := !empty && b == e
+						wb, we, wEmpty, wStores = b, (e+1)%L, false, true
+						if full {
+							wb = (b + 1) % L
+						}
+						wantRet = "index(" + bufN + ", " + eN + ")"
+					case "Get":
+						if empty {
+							wb, we, wEmpty = b, e, true
+							wantRet = "0, #false"
+						} else {
+							wb, we = (b+1)%L, e
+							wEmpty = wb == we
+							wantRet = "index(" + bufN + ", " + bN + "), #true"
+						}
+					}
+					gotRet := strings.Join(exprs(taken.Ret), ", ")
+					if b2 != wb || e2 != we || postEmpty != wEmpty || stores != wStores || gotRet != wantRet {
+						why = fmt.Sprintf("in the state begin=%d end=%d empty=%v %s leaves begin=%d end=%d empty=%v (stores at end: %v) and returns %s; the bounded FIFO has begin=%d end=%d empty=%v (stores at end: %v) and returns %s", b, e, empty, name, b2, e2, postEmpty, stores, gotRet, wb, we, wEmpty, wStores, wantRet)
+						break
+					}
+				}
+			}
+		}
+		// what Put stores is its argument
+		if why == "" && name == "Put" {
+			stored := false
+			ast.Inspect(fi.Decl.Body, func(n ast.Node) bool {
+				as, ok := n.(*ast.AssignStmt)
+				if !ok || len(as.Lhs) != 1 || len(as.Rhs) != 1 {
+					return true
+				}
+				if ix, isIx := as.Lhs[0].(*ast.IndexExpr); isIx {
+					if sel, isSel := ix.X.(*ast.SelectorExpr); isSel && sel.Sel.Name == ringF.buf {
+						if id, isID := ast.Unparen(as.Rhs[0]).(*ast.Ident); isID && identIsParam(info, fi.Decl, id) {
+							stored = true
+						}
+					}
+				}
+				return true
+			})
+			if !stored {
+				why = "what Put stores into the buffer is not its argument"
+			}
+		}
+		run.Oblige(why == "")
+		if why != "" {
+			c.violate("ring-steps", site, short(why, 80), fi.Decl.Pos(), why)
+			states += 24 // the rule was not vacuous: it found something
+		}
+	}
+	run.Count("ring_states", states)
+	run.Floor("ring_states", 24)
+}
+
+// evalIntTermEnv: evalIntTerm with len(x) looked up by its text.
+func evalIntTermEnv(e sym.Expr, env map[string]sym.Expr) (int64, bool) {
+	if c, ok := e.(sym.Call); ok && c.Fn == "len" {
+		if v, has := env[sym.CanonString(c)]; has {
+			return evalIntTerm(v, env)
+		}
+		return 0, false
+	}
+	switch x := e.(type) {
+	case sym.Bin:
+		l, ok1 := evalIntTermEnv(x.L, env)
+		r, ok2 := evalIntTermEnv(x.R, env)
+		if !ok1 || !ok2 {
+			return 0, false
+		}
+		return evalIntTerm(sym.Bin{Op: x.Op, L: sym.N(l), R: sym.N(r)}, env)
+	case sym.Call:
+		if (x.Fn == "mod" || x.Fn == "%") && len(x.Args) == 2 {
+			l, ok1 := evalIntTermEnv(x.Args[0], env)
+			r, ok2 := evalIntTermEnv(x.Args[1], env)
+			if ok1 && ok2 && r != 0 {
+				return l % r, true
+			}
+		}
+		return 0, false
+	}
+	return evalIntTerm(e, env)
+}
+
+func evalRingBool(e sym.Expr, env map[string]sym.Expr) (bool, bool) {
+	switch x := e.(type) {
+	case sym.Var:
+		if v, ok := env[x.Name]; ok {
+			if vv, isV := v.(sym.Var); isV {
+				if vv.Name == "#true" {
+					return true, true
+				}
+				if vv.Name == "#false" {
+					return false, true
+				}
+			}
+		}
+		if x.Name == "#true" {
+			return true, true
+		}
+		if x.Name == "#false" {
+			return false, true
+		}
+		return false, false
+	case sym.Logic:
+		switch x.Op {
+		case "!":
+			v, ok := evalRingBool(x.Args[0], env)
+			return !v, ok
+		case "&&", "||":
+			res := x.Op == "&&"
+			for _, a := range x.Args {
+				v, ok := evalRingBool(a, env)
+				if !ok {
+					return false, false
+				}
+				if x.Op == "&&" {
+					res = res && v
+				} else {
+					res = res || v
+				}
+			}
+			return res, true
+		}
+	case sym.Cmp:
+		l, ok1 := evalIntTermEnv(x.L, env)
+		r, ok2 := evalIntTermEnv(x.R, env)
+		if !ok1 || !ok2 {
+			return false, false
+		}
+		switch x.Op {
+		case "==":
+			return l == r, true
+		case "!=":
+			return l != r, true
+		case "<":
+			return l < r, true
+		case "<=":
+			return l <= r, true
+		case ">":
+			return l > r, true
+		case ">=":
+			return l >= r, true
+		}
+	case sym.Ite:
+		cv, ok := evalRingBool(x.Cond, env)
+		if !ok {
+			return false, false
+		}
+		if cv {
+			return evalRingBool(x.A, env)
+		}
+		return evalRingBool(x.B, env)
+	}
+	return false, false
 }
